@@ -2,3 +2,11 @@ add("C04", "property-based testing (Hypothesis) against a sweep-line reference m
     "Generated-input search: interval arrangements with frequent ties on 1-4 streams and 1-3 ranks are written as trace files, loaded through TraceAnalysis and compared exactly (integers) with a sweep-line model of span/union/compute measures; percentages to 0.005.",
     "Trusts the reference model (hv/model/intervals.py) and the name->kernel-type tags of hv/gen/vocab.py; bounded to <= 14 activities per rank; JSON parser backend only.",
     "DESIGN.md §5 C04")
+add("C05", "property-based testing (Hypothesis) against a sweep-line reference model",
+    "Generated-input search over interval arrangements x (num_kernels, duration_ratio, include_memory_kernels): the kernel-type table is compared exactly with the exclusive type-combination measure computed by sweep over the raw entries, and the per-kernel table with per-name count/sum/min/max/mean recomputed from the raw entries (validity predicate for which names are folded into 'others').",
+    "Trusts hv/model/intervals.py and the vocabulary tags; which names get folded is only constrained by 'at most num_kernels named rows'; <= 14 activities per rank.",
+    "DESIGN.md §5 C05")
+add("C07", "property-based testing (Hypothesis) against a sweep-line reference model",
+    "Generated-input search: communication/computation interval arrangements with frequent shared endpoints; the reported percentage is compared (tolerance 0.005) with 100*|U comm ^ U comp|/|U comm| from an endpoint sweep; range 0..100 checked directly.",
+    "Trusts hv/model/intervals.py and the vocabulary tags; NaN accepted only when the communication union has measure 0.",
+    "DESIGN.md §5 C07")
